@@ -37,7 +37,21 @@ fn generate(src: &Path, out: &Path, mode: &str) -> Result<BTreeMap<String, Strin
 
 /// keys of `export interface Name { ... }` (mode none) / `export const NameSchema = z.object({ ... })` (zod)
 fn object_keys(types_ts: &str, name: &str, zod: bool) -> Option<Vec<String>> {
-    Some(raw_object_keys(types_ts, name, zod)?.into_iter().map(|k| k.trim_matches('"').trim_matches('\'').to_string()).collect())
+    Some(raw_object_keys(types_ts, name, zod)?.into_iter().map(|k| js_unquote(&k)).collect())
+}
+
+/// the text a printed key names: an identifier as it is, a quoted key with its escapes decoded
+fn js_unquote(k: &str) -> String {
+    let q = match k.chars().next() { Some(c) if (c == '"' || c == '\'') && k.len() >= 2 && k.ends_with(c) => c, _ => return k.to_string() };
+    let _ = q;
+    let inner = &k[1..k.len() - 1];
+    let mut out = String::new();
+    let mut chars = inner.chars();
+    while let Some(c) = chars.next() {
+        if c != '\\' { out.push(c); continue; }
+        match chars.next() { Some('n') => out.push('\n'), Some('r') => out.push('\r'), Some('t') => out.push('\t'), Some('0') => out.push('\0'), Some(o) => out.push(o), None => out.push('\\') }
+    }
+    out
 }
 
 /// the keys as printed (quotes kept)
@@ -82,7 +96,8 @@ fn object_entries(types_ts: &str, name: &str, zod: bool) -> Option<Vec<(String, 
         // the key ends at the first `:` outside quotes
         let mut q: Option<char> = None;
         let mut cut = None;
-        for (i, ch) in l.char_indices() { match (q, ch) { (Some(x), c) if c == x => q = None, (Some(_), _) => {}, (None, '"') | (None, '\'') => q = Some(ch), (None, ':') => { cut = Some(i); break; } _ => {} } }
+        let mut esc = false;
+        for (i, ch) in l.char_indices() { if q.is_some() && esc { esc = false; continue; } match (q, ch) { (Some(_), '\\') => esc = true, (Some(x), c) if c == x => q = None, (Some(_), _) => {}, (None, '"') | (None, '\'') => q = Some(ch), (None, ':') => { cut = Some(i); break; } _ => {} } }
         if let Some(c) = cut { out.push((l[..c].trim().trim_end_matches('?').to_string(), l[c + 1..].trim().to_string())); }
     }
     Some(out)
@@ -92,14 +107,26 @@ fn object_entries(types_ts: &str, name: &str, zod: bool) -> Option<Vec<(String, 
 fn enum_literals(types_ts: &str, name: &str, zod: bool) -> Option<Vec<String>> {
     let head = if zod { format!("export const {}Schema = z.enum([", name) } else { format!("export type {} = ", name) };
     let start = types_ts.find(&head)? + head.len();
-    let rest = &types_ts[start..];
-    let end = rest.find(';')?;
+    // the values of the string literals up to the `;` that ends the declaration (JavaScript escapes decoded)
     let mut v = Vec::new();
     let mut cur: Option<String> = None;
-    for ch in rest[..end].chars() {
-        match (&mut cur, ch) { (None, '"') => cur = Some(String::new()), (Some(s), '"') => { v.push(s.clone()); cur = None; } (Some(s), c) => s.push(c), _ => {} }
+    let mut chars = types_ts[start..].chars();
+    while let Some(ch) = chars.next() {
+        match (&mut cur, ch) {
+            (None, ';') => return Some(v),
+            (None, '"') => cur = Some(String::new()),
+            (None, _) => {}
+            (Some(s), '"') => { v.push(s.clone()); cur = None; }
+            (Some(s), '\\') => match chars.next()? {
+                'n' => s.push('\n'), 'r' => s.push('\r'), 't' => s.push('\t'), '0' => s.push('\0'),
+                'u' => { let mut hex = String::new(); let mut c = chars.next()?; if c == '{' { loop { c = chars.next()?; if c == '}' { break; } hex.push(c); } } else { hex.push(c); for _ in 0..3 { hex.push(chars.next()?); } } s.push(char::from_u32(u32::from_str_radix(&hex, 16).ok()?)?); }
+                c => s.push(c),
+            },
+            (Some(_), '\n') => return None,
+            (Some(s), c) => s.push(c),
+        }
     }
-    Some(v)
+    None
 }
 
 
@@ -447,6 +474,11 @@ fn main() {
         src.push_str("#[tauri::command(rename_all = \"snake_case\")]\npub fn macro_snake(user_name: String, retry_count: u32, on_event: Channel<u32>, app: tauri::AppHandle) -> u32 { 0 }\n#[tauri::command(async, rename_all = \"camelCase\")]\npub fn macro_camel(user_name: String) -> u32 { 0 }\n#[command(rename_all = \"snake_case\")]\npub fn bare_macro_snake(user_name: String) -> u32 { 0 }\n#[tauri::command(async)]\npub fn macro_plain(user_name: String) -> u32 { 0 }\n");
         src.push_str("#[tauri::command(root = \"crate\", rename_all = \"snake_case\")]\npub fn macro_root_first(file_name: String, on_event: Channel<u32>) -> u32 { 0 }\n#[tauri::command(rename_all = \"snake_case\", root = \"crate\")]\npub fn macro_root_last(file_name: String) -> u32 { 0 }\n");
         src.push_str("#[tauri::command]\npub fn tauri_data(window: tauri::Window, new_size: tauri::LogicalSize<f64>, color_scheme: tauri::Theme, target_url: tauri::Url, origin: tauri::PhysicalPosition<i32>, maybe_theme: Option<tauri::Theme>) -> u32 { 0 }\n");
+        // imported Request (written with its lifetime) is injected; a user type Request<T> is data; destructured arguments are
+        // keyed by the struct of their pattern (Tauri's command macro)
+        src.push_str("#[derive(Serialize, Deserialize)]\npub struct Point2 { pub x: i32, pub y: i32 }\n#[derive(Serialize, Deserialize)]\npub struct Sized2 { pub w: u32, pub h: u32 }\n");
+        src.push_str("pub mod ipc_cmds {\n    use tauri::ipc::Request;\n    use super::{Point2, Sized2};\n    #[tauri::command]\n    pub fn raw_request(request: Request<'_>, note_text: String) -> u32 { 0 }\n    #[tauri::command]\n    pub fn raw_request_named<'a>(req: Request<'a>, webview_label: String) -> u32 { 0 }\n    #[tauri::command]\n    pub fn destructured(Point2 { x, y }: Point2, crate::Sized2 { w, .. }: Sized2, plain_one: u32) -> u32 { 0 }\n}\n");
+        src.push_str("pub mod wrapped {\n    use serde::{Serialize, Deserialize};\n    #[derive(Serialize, Deserialize)]\n    pub struct Request<T> { pub body: T }\n    #[derive(Serialize, Deserialize)]\n    pub struct NewUser { pub name: String }\n}\n#[tauri::command]\npub fn wrapped_request(request: wrapped::Request<u32>, dry_run: bool) -> u32 { 0 }\n");
         src.push_str("#[tauri::command]\npub fn channel_spellings(id: u32, on_a: tauri::ipc::Channel<u32>, on_b: tauri::ipc::Channel, on_c: ipc::Channel<String>) -> u32 { 0 }\n");
         src.push_str("#[tauri::command]\npub fn opt_paths(plain: Option<u32>, std_path: std::option::Option<u32>, core_path: core::option::Option<String>, abs_path: ::std::option::Option<bool>, required: u32) -> u32 { 0 }\n");
         src.push_str("#[tauri::command]\npub fn r#move(first_arg: String, r#type: u32, on_event: Channel<u32>) -> u32 { 0 }\n");
@@ -505,6 +537,21 @@ fn main() {
                 if keys != ["channel", "other", "pane", "request"] { return Err(format!("keys {:?}, expected [channel, other, pane, request]: `Request`, `Channel2` and `dto::Window` are user-defined serde structs, not framework types", keys)); }
                 Ok(format!("{:?}", keys))
             });
+            for (obj, sig, want) in [
+                ("RawRequestParams", "fn raw_request(request: Request<'_>, note_text: String) after use tauri::ipc::Request", vec!["noteText"]),
+                ("RawRequestNamedParams", "fn raw_request_named<'a>(req: Request<'a>, webview_label: String)", vec!["webviewLabel"]),
+                ("DestructuredParams", "fn destructured(Point2 { x, y }: Point2, crate::Sized2 { w, .. }: Sized2, plain_one: u32)", vec!["plainOne", "point2", "sized2"]),
+                ("WrappedRequestParams", "fn wrapped_request(request: wrapped::Request<u32>, dry_run: bool) with a user struct Request<T>", vec!["dryRun", "request"]),
+            ] {
+                rep.case("invoke_keys_in_generated_bindings", &format!("{} mode={}", sig, mode), &|| {
+                    let files = generate(&dir, &root.join(format!("inject/out_{}", mode)), mode)?;
+                    let t = files.get("types.ts").ok_or("no types.ts")?;
+                    let mut keys = object_keys(t, obj, mode == "zod").ok_or(format!("UNPARSED: {} not found", obj))?;
+                    keys.sort();
+                    if keys != want { return Err(format!("keys {:?}; Tauri's command macro reads {:?}", keys, want)); }
+                    Ok(format!("{:?}", keys))
+                });
+            }
             rep.case("invoke_keys_in_generated_bindings", &format!("fn channel_spellings(id: u32, on_a: tauri::ipc::Channel<u32>, on_b: tauri::ipc::Channel, on_c: ipc::Channel<String>) mode={}", mode), &|| {
                 let files = generate(&dir, &root.join(format!("inject/out_{}", mode)), mode)?;
                 let t = files.get("types.ts").ok_or("no types.ts")?;
@@ -634,6 +681,10 @@ fn main() {
             ("match_", "", Some("match_")),
             ("ref__", "", Some("ref__")),
             ("empty_rename", "#[serde(rename = \"\")]", Some("")),
+            ("unicode_escape", "#[serde(rename = \"caf\\u{e9}\")]", Some("caf\u{e9}")),
+            ("raw_rename", "#[serde(rename = r#\"say \"hi\"\"#)]", Some("say \"hi\"")),
+            ("quote_then_skip_word", "#[serde(rename = \"a\\\"skip\")]", Some("a\"skip")),
+            ("raw_with_words", "#[serde(rename = r#\"x\", skip, rename = \"y\"#)]", Some("x\", skip, rename = \"y")),
         ];
         let conventions = ["", "lowercase", "UPPERCASE", "PascalCase", "camelCase", "snake_case", "SCREAMING_SNAKE_CASE", "kebab-case", "SCREAMING-KEBAB-CASE"];
         let derives = ["#[derive(Serialize, Deserialize)]", "#[derive(Debug, Clone, serde::Serialize, serde::Deserialize)]", "#[derive(serde::Serialize)]\n#[derive(Debug)]", "#[derive(Deserialize, Clone)]"];
@@ -668,7 +719,18 @@ fn main() {
             ebody.push_str("    #[serde(rename(serialize = \"on-hold\", deserialize = \"onhold\"))]\n    OnHold,\n");
             lits.push("on-hold".to_string());
             ebody.push_str("    #[serde(rename = \"\\\\\")]\n    Backslash,\n");
-            lits.push("\\\\".to_string());
+            lits.push("\\".to_string());
+            // every spelling of a string literal names the text the compiler reads
+            ebody.push_str("    #[serde(rename = \"\\\"\")]\n    Quote,\n");
+            lits.push("\"".to_string());
+            ebody.push_str("    #[serde(rename = \"caf\\u{e9}\")]\n    Cafe,\n");
+            lits.push("caf\u{e9}".to_string());
+            ebody.push_str("    #[serde(rename = r#\"say \"hi\"\"#)]\n    RawQuoted,\n");
+            lits.push("say \"hi\"".to_string());
+            ebody.push_str("    #[serde(rename = r\"a\\b\")]\n    RawBackslash,\n");
+            lits.push("a\\b".to_string());
+            ebody.push_str("    #[serde(rename = \"\\x41\\t1\")]\n    Hex,\n");
+            lits.push("A\t1".to_string());
             ebody.push_str("    #[serde(rename = \"SameName\")]\n    SameName,\n");
             lits.push("SameName".to_string());
             ebody.push_str("    #[serde(rename = \"HTTP\")]\n    Proto,\n");
@@ -703,6 +765,14 @@ fn main() {
         src.push_str("#[derive(Serialize, Deserialize)]\npub enum WithSkipped { Shown, #[serde(skip)] Hidden, #[serde(skip, rename = \"x\")] HiddenToo, AlsoShown }\n");
         enums.push(("WithSkipped".to_string(), vec!["Shown".to_string(), "AlsoShown".to_string()]));
         cmd_params.push("tm: TagMentions, deo: DeOnly, sd: SerDe, ex: Expecting, ws: WithSkipped".to_string());
+        // serde attributes given through cfg_attr (the usual way of an optional serde feature) count like plain ones
+        src.push_str("#[cfg_attr(feature = \"serde\", derive(Serialize, Deserialize), serde(rename_all = \"camelCase\"))]\npub struct ViaCfgAttr {\n    pub first_name: u32,\n    #[cfg_attr(feature = \"serde\", serde(rename = \"why\"))]\n    pub y_pos: u32,\n    #[cfg_attr(all(feature = \"serde\", not(test)), serde(skip))]\n    pub cache_slot: u32,\n    #[cfg_attr(feature = \"lints\", allow(dead_code))]\n    pub z_pos: u32,\n    #[cfg_attr(feature = \"serde\", doc = \"serde(skip)\")]\n    pub documented_one: u32,\n}\n");
+        structs.push(("ViaCfgAttr".to_string(), vec![("firstName".to_string(), false), ("why".to_string(), false), ("zPos".to_string(), false), ("documentedOne".to_string(), false)]));
+        src.push_str("#[cfg_attr(feature = \"serde\", derive(Serialize, Deserialize))]\n#[cfg_attr(feature = \"serde\", serde(rename_all = \"kebab-case\"))]\npub enum ViaCfgAttrKind {\n    FastPath,\n    #[cfg_attr(feature = \"serde\", serde(skip))]\n    Hidden,\n    #[cfg_attr(feature = \"serde\", serde(rename = \"SLOW\"))]\n    SlowPath,\n}\n");
+        enums.push(("ViaCfgAttrKind".to_string(), vec!["fast-path".to_string(), "SLOW".to_string()]));
+        cmd_params.push("vca: ViaCfgAttr, vck: ViaCfgAttrKind".to_string());
+        // one command with an implementation per platform: declared once
+        src.push_str("#[cfg(desktop)]\n#[tauri::command]\npub fn per_platform(vca: ViaCfgAttr, on_desktop: bool) -> u32 { 0 }\n#[cfg(mobile)]\n#[tauri::command]\npub fn per_platform(vca: ViaCfgAttr, on_desktop: bool) -> u32 { 1 }\n");
         src.push_str("pub mod db {\n    /// Database row: we deliberately do not derive Serialize or Deserialize here\n    #[derive(Debug, Clone)]\n    pub struct Shadow { pub secret_hash: String, pub failed_logins: u32 }\n}\n");
         src.push_str("pub mod api {\n    use serde::{Serialize, Deserialize};\n    #[derive(Serialize, Deserialize)]\n    pub struct Shadow { pub shown: u32 }\n}\n");
         structs.push(("Shadow".to_string(), vec![("shown".to_string(), false)]));
@@ -1498,11 +1568,18 @@ fn main() {
     // ============================================================ C07 (known finding): tuple structs are project-defined serde structs too
     {
         let src = format!("{}#[derive(Serialize, Deserialize, Clone)]\npub struct Wrapper(pub String);\n#[derive(Serialize, Deserialize, Clone)]\npub struct Pair(pub u32, pub String);\n\
-            #[derive(Serialize, Deserialize, Clone)]\npub struct Holder {{ pub w: Wrapper, pub p: Vec<Pair> }}\n#[tauri::command]\npub fn hold(h: Holder) -> u32 {{ 0 }}\n", HDR);
+            #[derive(Serialize, Deserialize, Clone)]\npub struct Holder {{ pub w: Wrapper, pub p: Vec<Pair> }}\n#[tauri::command]\npub fn hold(h: Holder) -> u32 {{ 0 }}\n#[tauri::command]\npub fn by_wrapper(Wrapper(inner): Wrapper, page_no: u32) -> u32 {{ 0 }}\n", HDR);
         let dir = root.join("tuple_structs/src");
         write_files(&dir, &[("lib.rs".to_string(), src)]);
         for mode in ["none", "zod"] {
             let files = generate(&dir, &root.join(format!("tuple_structs/out_{}", mode)), mode);
+            rep.case("invoke_keys_in_generated_bindings", &format!("fn by_wrapper(Wrapper(inner): Wrapper, page_no: u32) mode={}", mode), &|| {
+                let files = files.as_ref().map_err(|e| e.clone())?;
+                let mut keys = object_keys(files.get("types.ts").ok_or("no types.ts")?, "ByWrapperParams", mode == "zod").ok_or("UNPARSED: ByWrapperParams not found")?;
+                keys.sort();
+                if keys != ["pageNo", "wrapper"] { return Err(format!("keys {:?}; Tauri's command macro reads [pageNo, wrapper]", keys)); }
+                Ok(format!("{:?}", keys))
+            });
             rep.case("reachable_tuple_structs_are_declared", &format!("project=tuple_structs mode={}", mode), &|| {
                 let files = files.as_ref().map_err(|e| e.clone())?;
                 let exp = exports_of(files.get("types.ts").ok_or("no types.ts")?);
